@@ -136,6 +136,14 @@ func (g *c16Gen) cmd(c *Cmd, depth int) {
 			c.G.Groups = append(c.G.Groups, g.group("grp"+g.mk(), shorts, 0, rapid.IntRange(0, 4).Draw(t, "hiddenTop") == 0, 1))
 		}
 	}
+	// namespaces assigned in code to the command itself (not to the root's long
+	// names: that would rename the built-in help flag used to request the help)
+	if depth > 0 && rapid.IntRange(0, 3).Draw(t, "cmdNs") == 0 {
+		c.G.Namespace = "cn" + g.mk()
+	}
+	if rapid.IntRange(0, 3).Draw(t, "cmdEnvNs") == 0 {
+		c.G.EnvNamespace = "CE" + g.mk()
+	}
 	if depth < 2 && rapid.IntRange(0, 9).Draw(t, "hasCmds") < 7 {
 		ncmds := rapid.IntRange(1, 3).Draw(t, "ncmds")
 		if rapid.IntRange(0, 4).Draw(t, "manyCmds") == 0 {
@@ -398,6 +406,24 @@ func c16Oracle(c *C16Case) string {
 			return fmt.Sprintf("man page shows the masked default value %q\n%s", s, trunc(man))
 		}
 	}
+	// (1b) an attribute of one option is never shown for another: every
+	// option-level marker (description, value name, default, mask, env key)
+	// occurs at most once in the help and at most once in the man page
+	for _, v := range vis {
+		o := v.o
+		ms := onlyMarkers([]string{o.Desc, o.ValueName, o.DefaultMask, o.Env})
+		if len(o.Choices) == 0 {
+			ms = append(ms, onlyMarkers(o.Defaults)...)
+		}
+		for _, m := range ms {
+			if n := strings.Count(help, m); n > 1 {
+				return fmt.Sprintf("help for chain %q shows %q, an attribute of option %s only, %d times\n%s", words, m, o.ID, n, trunc(help))
+			}
+			if n := strings.Count(man, m); n > 1 {
+				return fmt.Sprintf("man page shows %q, an attribute of option %s only, %d times\n%s", m, o.ID, n, trunc(man))
+			}
+		}
+	}
 	// (2) every visible option along the chain has its row in the help
 	if !throughHidden {
 		for _, v := range vis {
@@ -551,6 +577,6 @@ func c16Oracle(c *C16Case) string {
 }
 
 func TestC16(t *testing.T) {
-	S("C16").Rule = "declarations in which every string attribute (long names, descriptions, value names, each choice, each default, masks, env keys, namespaces and env-namespaces, group descriptions, command names, aliases, positional names/descriptions) is a unique marker word, with hidden marks on options, groups and commands at any depth, default masks ('-' included), env keys under nested env-namespaces with custom delimiters (1-3, sometimes 4-9 sub-commands per level) x every selectable active chain (chosen by parsing the command words + --help, so the ErrHelp message is the text checked); oracle: every visible option/positional/sub-command row is present with all its parts, no marker of a hidden item and no masked default value occurs in help or man page, man page lists every visible option and command of the whole tree. non-trivial: hidden and visible items below the top level, or a default mask; distinct by (declaration signature, chain)"
+	S("C16").Rule = "declarations in which every string attribute (long names, descriptions, value names, each choice, each default, masks, env keys, namespaces and env-namespaces, group descriptions, command names, aliases, positional names/descriptions) is a unique marker word, with hidden marks on options, groups and commands at any depth, default masks ('-' included), env keys under nested env-namespaces with custom delimiters, namespaces and env-namespaces assigned in code to commands (1-3, sometimes 4-9 sub-commands per level) x every selectable active chain (chosen by parsing the command words + --help, so the ErrHelp message is the text checked); oracle: every visible option/positional/sub-command row is present with all its parts, no marker of a hidden item and no masked default value occurs in help or man page, no option-level marker occurs twice, man page lists every visible option and command of the whole tree. non-trivial: hidden and visible items below the top level, or a default mask; distinct by (declaration signature, chain)"
 	runProp(t, "C16", genC16, c16Oracle)
 }
